@@ -596,6 +596,26 @@ func c03Features() []c03Feat {
 		s.DocGridType = ""
 		return d.SetPageSettings(s)
 	})
+	sec("SetPageSettings(custom 300x150 landscape)", func(d *document.Document) error {
+		s := document.DefaultPageSettings()
+		s.Size = document.PageSizeCustom
+		s.CustomWidth, s.CustomHeight = 300, 150
+		s.Orientation = document.OrientationLandscape
+		s.DocGridType = ""
+		return d.SetPageSettings(s)
+	})
+	sec("SetCustomPageSize(300,150)+SetPageOrientation(landscape)", func(d *document.Document) error {
+		if err := d.SetCustomPageSize(300, 150); err != nil {
+			return err
+		}
+		return d.SetPageOrientation(document.OrientationLandscape)
+	})
+	sec("SetHeaderFooterDistance(5,7)+SetPageMargins(10,20,30,40)", func(d *document.Document) error {
+		if err := d.SetHeaderFooterDistance(5, 7); err != nil {
+			return err
+		}
+		return d.SetPageMargins(10, 20, 30, 40)
+	})
 	sec("SetDifferentFirstPage(true)", func(d *document.Document) error { d.SetDifferentFirstPage(true); return nil })
 	sec("SetDifferentFirstPage(true,false)", func(d *document.Document) error { d.SetDifferentFirstPage(true); d.SetDifferentFirstPage(false); return nil })
 	sec("AddHeader(default,H)", func(d *document.Document) error { return d.AddHeader(document.HeaderFooterTypeDefault, "H") })
